@@ -236,6 +236,20 @@ impl LookupTable {
     }
 }
 
+/// Verification hook H2 (read-only accessors, compiled only with `--cfg poulpy_verif`).
+#[cfg(poulpy_verif)]
+impl LookupTable {
+    /// Limbs of the `extension_factor` polynomials of the table.
+    pub fn verif_data(&self) -> &[VecZnx<Vec<u8>>] {
+        &self.data
+    }
+
+    /// Half-step pre-rotation applied by `lookup_table_set`.
+    pub fn verif_drift(&self) -> usize {
+        self.drift
+    }
+}
+
 pub(crate) trait DivRound {
     fn div_round(self, rhs: Self) -> Self;
 }
